@@ -31,6 +31,11 @@ def jobs(tier):
     the statements of C01 / C03 / C12 (intervals of positive length) do not
     cover."""
     J = list(c01.jobs(tier))
+    # a precision with a single forced call that may end off the 10^-p grid
+    # (fronts stay on the grid): the truncated interval is handed as it is
+    J.append(c01._cfg('offgrid-end-p0-M1', 2, 1, 3, 'const', 'none', tier,
+                      precision=0, ts_grid=[1, 2],
+                      iv_grid=[0.5, 1.5, 2.5, 1.0, 2.25], K=6))
     if tier == 'quick':
         J.append(c01._cfg('zerolen-N2', 2, 3, 3, 'const', 'none', tier,
                           iv_min=0, IV=2))
